@@ -198,6 +198,7 @@ impl TransportSenderT for Tx {
 			if my > 0 {
 				rt::yield_n(rt::draw("tx-yield", my + 1)).await;
 			}
+			{
 			let mut w = wire.lock();
 			let idx = w.send_count;
 			w.send_count += 1;
@@ -213,6 +214,11 @@ impl TransportSenderT for Tx {
 				wk.wake();
 			}
 			w.seam_tick();
+			}
+			// the bytes are out, but the flush may still return Pending a few times
+			if my > 0 {
+				rt::yield_n(rt::draw("tx-flush-yield", my + 1)).await;
+			}
 			Ok(())
 		}
 	}
